@@ -1,7 +1,7 @@
 #!/usr/bin/env python3
 """Writes the prompts for a round of seeded changes (development aid, not a registered check).
 
-  seed_prompts.py <round>      round in {4, 5, 6, 7, 8, 9, 10}; creates /tmp/seeds/prompt_CNN.txt for every property
+  seed_prompts.py <round>      round in {4, 5, 6, 7, 8, 9, 10, 11}; creates /tmp/seeds/prompt_CNN.txt for every property
 
 The sub-agents get ONLY the rendered prompt (property text from properties.jsonl) and their own scratch
 worktree /tmp/seeds/CNN; nothing from /verif. Create the worktrees first:
@@ -254,6 +254,26 @@ ROUNDS = {
      C2 is free: the change YOU would bet on as the least likely to be found, with a root cause different
        from A2 and B2, preferably in a different file or package (bufiox, unsafex, internal/*, container/*).
      Name the clause each change breaks in its README."""),
+    11: dict(a="D2", b="E2", c=None,
+            testers="""Assume the testers are excellent and have already survived ten rounds of
+     planted bugs (randomized and bounded-exhaustive tests against independent reference models; sizes
+     from 0 to 64 MiB and declared sizes up to 2^32; histories of hundreds of operations on one object,
+     two live objects interleaved; reuse after failures and after every kind of rejected call, pooled
+     objects, results retained and re-checked much later; a co-tenant of the buffer pools; fault
+     injection of every kind on sources and sinks; inputs on the heap, in guard-page arenas and on
+     goroutine stacks; fresh processes; unusual value and error types; re-entrant callbacks; long runs of
+     many thousand operations per process; every exported entry point a clause applies to, also for the
+     2nd and n-th use of an object and with earlier results fed back in; the race detector). Your bug
+     must survive all of the above. Think hard about what is STILL not covered.""",
+            kinds="""     D2 must consist of TWO COOPERATING SITES: two small edits in different functions (preferably different
+       files or packages) that each look fine - and ARE harmless - on their own (applying either edit
+       alone does not break the property), but together break it for a particular multi-step sequence of
+       operations, a particular interleaving, or a fault at a particular point. State in the README why
+       each edit alone is harmless.
+     E2 is free: the change YOU would bet on as the least likely to be found, with a root cause different
+       from D2, preferably in a different file or package (bufiox, unsafex, internal/*, container/*), and
+       needing an unusual but legal input or a specific sequence of at least three operations to manifest.
+     Name the clause of the statement each change breaks in its README."""),
 }
 
 
@@ -265,7 +285,14 @@ def main():
     os.makedirs("/tmp/seeds", exist_ok=True)
     for p in props:
         pid = p["id"]
-        txt = HEAD.format(wt="/tmp/seeds/" + pid, out="/tmp/seedout/" + pid, id=pid, title=p["title"], statement=p["statement"],
+        head = HEAD
+        if r.get("c") is None:
+            head = (HEAD.replace("produce THREE different, independent changes (call them {a}, {b} and {c})",
+                                 "produce TWO different, independent changes (call them {a} and {b})")
+                        .replace("in {{{a}, {b}, {c}}}", "in {{{a}, {b}}}")
+                        .replace("(i.e. {out}/{a}/, {out}/{b}/, {out}/{c}/)", "(i.e. {out}/{a}/, {out}/{b}/)")
+                        .replace("SHORT summary of {a}, {b} and {c}", "SHORT summary of {a} and {b}"))
+        txt = head.format(wt="/tmp/seeds/" + pid, out="/tmp/seedout/" + pid, id=pid, title=p["title"], statement=p["statement"],
                           qtext=p["quantifier"]["text"], files=", ".join(p["anchors"]["files"]), **r)
         open("/tmp/seeds/prompt_%s.txt" % pid, "w").write(txt)
     print("wrote %d prompts for round %d (labels %s/%s/%s)" % (len(props), rnd, r["a"], r["b"], r["c"]))
